@@ -395,12 +395,14 @@ package sqlittle
 //@   ensures [flags] err == nil ==> (forall i int :: 0 <= i && i < len(k) ==> (r0[i].Desc <==> cols[i].SortOrder == 1)&& (len(str_lower(cols[i].Collate)) != 0 ==> r0[i].Collate == str_lower(cols[i].Collate)))
 //@   ensures [native] err == nil ==> (forall i int :: 0 <= i && i < len(k) ==> (isNilVal(k[i]) || isInt64(k[i]) || isFloat64(k[i]) || isString(k[i]) || isBytes(k[i]) ==> r0[i].V == k[i]))
 //@   ensures [storable] err == nil ==> (forall i int :: 0 <= i && i < len(k) ==> storable(r0[i].V))
+//@   ensures [converted] err == nil ==> (forall i int :: 0 <= i && i < len(k) ==> (hasType(k[i], "int") ==> r0[i].V == mkInt64(int64(deref(k[i], "int")))) && (hasType(k[i], "uint") ==> r0[i].V == mkInt64(int64(deref(k[i], "uint")))) && (hasType(k[i], "int32") ==> r0[i].V == mkInt64(int64(deref(k[i], "int32")))) && (hasType(k[i], "uint32") ==> r0[i].V == mkInt64(int64(deref(k[i], "uint32")))) && (hasType(k[i], "bool") ==> r0[i].V == mkInt64(ite(deref(k[i], "bool"), 1, 0))))
 //@   trusted-ensures [keyok] err == nil ==> KEYOK(r0)
 //@   loop 1 invariant 0 <= $i && $i <= len(k) && len(dbk) == len(k) && fresh(dbk) && off(dbk) == 0 && $i <= len(cols)
 //@   loop 1 invariant [desc] forall j int :: 0 <= j && j < $i ==> (dbk[j].Desc <==> cols[j].SortOrder == 1)
 //@   loop 1 invariant [coll1] forall j int :: 0 <= j && j < $i ==> (len(str_lower(cols[j].Collate)) != 0 ==> dbk[j].Collate == str_lower(cols[j].Collate))
 //@   loop 1 invariant forall j int :: 0 <= j && j < $i ==> (isNilVal(k[j]) || isInt64(k[j]) || isFloat64(k[j]) || isString(k[j]) || isBytes(k[j]) ==> dbk[j].V == k[j])
 //@   loop 1 invariant forall j int :: 0 <= j && j < $i ==> storable(dbk[j].V)
+//@   loop 1 invariant [converted] forall j int :: 0 <= j && j < $i ==> (hasType(k[j], "int") ==> dbk[j].V == mkInt64(int64(deref(k[j], "int")))) && (hasType(k[j], "uint") ==> dbk[j].V == mkInt64(int64(deref(k[j], "uint")))) && (hasType(k[j], "int32") ==> dbk[j].V == mkInt64(int64(deref(k[j], "int32")))) && (hasType(k[j], "uint32") ==> dbk[j].V == mkInt64(int64(deref(k[j], "uint32")))) && (hasType(k[j], "bool") ==> dbk[j].V == mkInt64(ite(deref(k[j], "bool"), 1, 0)))
 //@   loop 1 decreases len(k) - $i
 
 // ---------------------------------------------------------------------------------------
